@@ -4,6 +4,7 @@ package pubsub
 
 import (
 	"context"
+	"sync"
 	"sync/atomic"
 )
 
@@ -30,3 +31,13 @@ func verifAt(ctx context.Context, point string, args ...any) {
 }
 
 func verifSig(point string, args ...any) { verifAt(context.Background(), point, args...) }
+
+func (dq *Deque[T]) verifCondName(c *sync.Cond) string {
+	switch c {
+	case dq.nfront:
+		return "nfront"
+	case dq.nback:
+		return "nback"
+	}
+	return "updates"
+}
